@@ -12,6 +12,20 @@ use crate::core::Cx;
 // SimStream
 // ---------------------------------------------------------------------------------------------
 
+/// The kind of a hard (non-retryable) I/O failure, drawn from the tape; 0 = the plainest.
+pub fn hard_kind(cx: &Cx) -> io::ErrorKind {
+    *cx.pick(&[
+        io::ErrorKind::Other,
+        io::ErrorKind::BrokenPipe,
+        io::ErrorKind::TimedOut,
+        io::ErrorKind::WouldBlock,
+        io::ErrorKind::UnexpectedEof,
+        io::ErrorKind::ConnectionReset,
+        io::ErrorKind::InvalidInput,
+        io::ErrorKind::PermissionDenied,
+    ])
+}
+
 #[derive(Clone, Debug)]
 pub enum Frag {
     /// Sizes are drawn from the tape: 1..=min(buf.len(), available).
@@ -98,7 +112,7 @@ impl Read for SimStream {
         if self.fail_at == Some(idx) {
             self.failed = true;
             self.cx.fault("io_error");
-            return Err(io::Error::new(io::ErrorKind::Other, "simulated read failure"));
+            return Err(io::Error::new(hard_kind(&self.cx), "simulated read failure"));
         }
         if self.eintr_at == Some(idx) {
             self.placed_fired = true;
@@ -159,7 +173,7 @@ impl Write for SimStream {
         if self.fail_at == Some(idx) {
             self.failed = true;
             self.cx.fault("io_error");
-            return Err(io::Error::new(io::ErrorKind::Other, "simulated write failure"));
+            return Err(io::Error::new(hard_kind(&self.cx), "simulated write failure"));
         }
         if self.zero_at == Some(idx) {
             self.cx.fault("write_zero");
@@ -527,7 +541,7 @@ impl Wire for ScriptWire {
         self.op_index += 1;
         let res: io::Result<usize> = if self.fail_at == Some(idx) {
             self.cx.fault("io_error");
-            Err(io::Error::new(io::ErrorKind::BrokenPipe, "simulated port read failure"))
+            Err(io::Error::new(hard_kind(&self.cx), "simulated port read failure"))
         } else if self.maybe_eintr() {
             Err(io::Error::new(io::ErrorKind::Interrupted, "simulated EINTR"))
         } else {
@@ -572,7 +586,7 @@ impl Wire for ScriptWire {
         self.op_index += 1;
         let res: io::Result<usize> = if self.fail_at == Some(idx) {
             self.cx.fault("io_error");
-            Err(io::Error::new(io::ErrorKind::BrokenPipe, "simulated port write failure"))
+            Err(io::Error::new(hard_kind(&self.cx), "simulated port write failure"))
         } else if self.maybe_eintr() {
             Err(io::Error::new(io::ErrorKind::Interrupted, "simulated EINTR"))
         } else if buf.is_empty() {
